@@ -36,6 +36,15 @@ CLAIMED = {
  "C20": ("Coq theorems (largest fitting unit, printed digits = nearest decimal of the float, finite quotient for every int64, h/m/s exact below 60 h, estimators conserve time, positive samples always delivered) + differential correspondence with exact string prediction",
          "Props/C20.v over SizeFmt.v (Flocq binary64); the extracted model predicts the exact output string for f/d/s/v verbs and the exact float handed to the moving average; other verbs are checked to read back.", "7 (C20)"),
 }
+CLAIMED["C01"] = ("Coq progress theorem over the container/heap-manager acceptor (no reachable state inside a render cycle is wedged) and over the width-sync protocol (progress, 2n-step bound, never stuck) + select-shape obligations regenerated from the Go source by the translator + acceptance of hooked traces + hang detection on every scenario family and on the concurrent 'late' family",
+  "Props/C01.v: cycle_progress / Flow invariant for every accepted trace, Sync.v progress theorems, GenChecks (every hand-over select has a done clause; service loops watch done). The Go scheduler's fairness and Wait's WaitGroups are outside the model: hangs are decided by timeouts on every scenario (sequential, perturbed, fault-injected, concurrent API storms ended by Wait / Shutdown / cancel / Wait racing Add).",
+  "7 (C01), 8 (D5, D8, D11)")
+CLAIMED["C02"] = ("Coq theorems over translator-generated select tables (late calls cannot block, take the done branch, return the documented values), over the bar state machine (exited bar frozen) and over the acceptor (nothing sent to the heap manager after its end; container inert after return) + panic / hang / late-result monitors on every family incl. the concurrent 'late' family",
+  "Props/C02.v; gen/GenApi.v is regenerated from /repo on every run, so a select that loses its done clause or changes what it returns breaks an obligation; run-time panics in general cannot be excluded by the model and are observed (every family runs with panics fatal).",
+  "7 (C02), 8 (D5, D11)")
+CLAIMED["C10"] = ("Coq definition of linearizability w.r.t. the sequential bar rules with a proved-sound executable certificate checker (Actor.check_lin), quiescent-value theorem (capped sum for every order) + concurrent histories recorded from the library (2-4 goroutines, renders in between) each linearized by an untrusted search and validated by the extracted checker + the same families under the Go race detector",
+  "Props/C10.v; data-race freedom is a property of the compiled program's memory accesses and is decided by the race detector on conc/frames/sched/faults/bar/proxy runs, not by a theorem (stated as partial). Defect D4 found this way is fixed in /repo.",
+  "7 (C10), 8 (D4)")
 NOT_YET = {}
 props = [json.loads(l) for l in open(os.path.join(V, "properties.jsonl"))]
 checks, na = [], []
